@@ -2,7 +2,11 @@
 #   shared_state/agent_status_wrapper.rs: AddOneFailedConnectionSummary / AddOneConnectionSummary arms
 #   proxy/proxy_summary.rs: ProxySummary::to_key_string, From<ProxySummary> for ProxyConnectionSummary
 #   shared_state/key_keeper_wrapper.rs: SetKey/GetKey, state, rule-id and rules Set*/Get* arms; set_key/get_key messages;
-#       update_key, clear_key, get_current_key_{value,guid,incarnation}
+#       update_key, clear_key, get_current_key_{value,guid,incarnation}; set_{wireserver,imds,hostga}_rules (C09: one message of its OWN
+#       variant carrying rules.map(from_authorization_item), Ok only after the actor answered)
+#   shared_state/redirector_wrapper.rs (C09 + argument clause of C06; what unit `redirect` assumes about get_bpf_object / get_local_port):
+#       the four actor arms (Set/Get LocalPort, Set/Get BpfObject) and the wrappers set_local_port, get_local_port, set_bpf_object,
+#       get_bpf_object, update_bpf_object, clear_bpf_object
 import os
 import re
 import sys
@@ -30,6 +34,14 @@ ASSUMPTIONS = [
     "HashMap<String,_> model of vstd (obeys_key_model::<String>() required), vstd's Entry API specification, contracts/common/hash_str.rs get_mut specification "
     "plus the axiom that a key looked up by its own type (Q = K) is itself (axiom_same_key_updated); &str/String extensionality",
     "E13 placeholder ComputedAuthorizationItem (stored and handed back, never looked into); its derived Clone is a copy (assume_specification)",
+    "E13 placeholder AuthorizationItem (handed to from_authorization_item, never looked into); ComputedAuthorizationItem::from_authorization_item is a stub "
+    "(real signature) whose result is NAMED computed(item) (uninterpreted; its own contract -- the tables represent the document -- is proved in unit authz); "
+    "Option::map(f) applies f to the payload (vstd specification), so that set_*_rules is proved to send computed_opt(rules)",
+    "answered(tx) (uninterpreted) = `send` was called on the oneshot Sender tx: ensured by oneshot::Sender::send, and awaiting the paired Receiver yields Ok only "
+    "then (tokio docs: the receiver future resolves to the value sent, or Err(RecvError) if the sender was dropped without sending)",
+    "E13 placeholder redirector::BpfObject (held behind Arc<Mutex<_>> by the redirector actor, never looked into); cloning the Option<Arc<Mutex<BpfObject>>> "
+    "yields the same shared object (vstd's Option::clone specification + assumed Arc::clone: another handle to the same allocation); std::sync::Mutex is an opaque external type",
+    "str::to_lowercase is only named (uninterpreted `lower`; not used by the unchanged tree's functions under contract here)",
     "logger::write_warning is a stub; Debug/Display of Option<String> and of tokio's channel error types do not panic (log text unconstrained)",
     "vstd FromSpecImpl hook for From<ProxySummary>: obeys_from_spec() == false (no algebraic spec claimed; callers get the verified ensures of `from`)",
 ]
@@ -50,10 +62,29 @@ FN_PROPS = {
     "KeyKeeperSharedState::get_current_key_incarnation": ["C10"],
 }
 for _m in ("set_secure_channel_state", "get_current_secure_channel_state", "set_wireserver_rule_id", "get_wireserver_rule_id", "set_imds_rule_id",
-           "get_imds_rule_id", "set_hostga_rule_id", "get_hostga_rule_id", "get_wireserver_rules", "get_imds_rules", "get_hostga_rules"):
+           "get_imds_rule_id", "set_hostga_rule_id", "get_hostga_rule_id", "get_wireserver_rules", "get_imds_rules", "get_hostga_rules",
+           "set_wireserver_rules", "set_imds_rules", "set_hostga_rules"):
     FN_PROPS["KeyKeeperSharedState::" + _m] = ["C09"]
 
+# ---- vocabulary shared with unit `keykeeper` (imported there from this file, so that what keykeeper ASSUMES about set_*_rules is
+#      stated over the same symbols as what is PROVED here) ----
+# method-name stem <-> Endpoint / message-variant infix: set_<stem>_rules sends Set<Infix>Rules, which the actor stores in <stem>_rules
+ENDPOINTS = (("wireserver", "WireServer"), ("imds", "Imds"), ("hostga", "HostGA"))
+COMPUTED_SPEC = """
+/// C02's `compute`: ComputedAuthorizationItem::from_authorization_item (its own contract is decided in unit authz; uninterpreted here, so
+/// every result holds for whatever that function computes)
+pub uninterp spec fn computed(item: AuthorizationItem) -> ComputedAuthorizationItem;
+pub open spec fn computed_opt(o: Option<AuthorizationItem>) -> Option<ComputedAuthorizationItem> {
+    match o { Some(i) => Some(computed(i)), None => None }
+}
+"""
+
+FN_PROPS["RedirectorSharedState::start_new"] = ["C09", "C06"]
+for _m in ("set_local_port", "get_local_port", "set_bpf_object", "get_bpf_object", "update_bpf_object", "clear_bpf_object"):
+    FN_PROPS["RedirectorSharedState::" + _m] = ["C09", "C06"]
+
 KKW = "proxy_agent/src/shared_state/key_keeper_wrapper.rs"
+RDW = "proxy_agent/src/shared_state/redirector_wrapper.rs"
 ASW = "proxy_agent/src/shared_state/agent_status_wrapper.rs"
 
 T = "Tracked(t): Tracked<&mut KTrace>"
@@ -75,7 +106,7 @@ KK_ARMS = {
         ensures sent_value(response) == current_secure_channel_state,  // @C09.actor.GetSecureChannelState.replies_stored_value
 """),
 }
-for (v, local) in (("WireServer", "wireserver"), ("Imds", "imds"), ("HostGA", "hostga")):
+for (local, v) in ENDPOINTS:
     KK_ARMS["Set%sRuleId" % v] = ("vx_arm_set_%s_rule_id" % local, "%s_rule_id_0: String, rule_id: String, response: oneshot::Sender<()>" % local, "String",
                                   "let mut %s_rule_id = %s_rule_id_0;" % (local, local), "%s_rule_id" % local, """
         ensures r == rule_id,  // @C09.actor.Set%sRuleId.stores_its_argument
@@ -86,7 +117,8 @@ for (v, local) in (("WireServer", "wireserver"), ("Imds", "imds"), ("HostGA", "h
     KK_ARMS["Set%sRules" % v] = ("vx_arm_set_%s_rules" % local, "%s_rules_0: %s, rules: %s, response: oneshot::Sender<()>" % (local, OPT_RULES, OPT_RULES), OPT_RULES,
                                  "let mut %s_rules = %s_rules_0;" % (local, local), "%s_rules" % local, """
         ensures r == rules,  // @C09.actor.Set%sRules.stores_its_argument
-""" % v)
+                answered(response),  // @C09.actor.Set%sRules.answers_the_sender
+""" % (v, v))
     KK_ARMS["Get%sRules" % v] = ("vx_arm_get_%s_rules" % local, "%s_rules: %s, response: oneshot::Sender<%s>" % (local, OPT_RULES, OPT_RULES), "", "", "", """
         ensures sent_value(response) == %s_rules,  // @C09.actor.Get%sRules.replies_stored_value
 """ % (local, v))
@@ -145,7 +177,7 @@ def chan_e9(sf, path, msg_ty, tag):
             # awaiting a oneshot::Receiver: Err(RecvError) only "if the sender is dropped without sending"
             out.append((tuple(a["span"]), None, "rx: tokio::sync::oneshot::Receiver<R>, Tracked(t): Tracked<&mut ChanTrace<%s>>" % msg_ty, base + ", Tracked(t)",
                         "core::result::Result<R, tokio::sync::oneshot::error::RecvError>", """
-    ensures r matches Ok(v) ==> v == sent_value(rx_tx(rx)),
+    ensures r matches Ok(v) ==> v == sent_value(rx_tx(rx)) && answered(rx_tx(rx)),
             final(t).sent == old(t).sent, final(t).gone == (old(t).gone || r is Err),
             final(t).overflowed == old(t).overflowed, final(t).timed_out == old(t).timed_out,""",
                         dict(name="vx_e9_oneshot_recv_" + tag, generics="<R>", is_async=True, body="rx.await")))
@@ -168,11 +200,14 @@ def build(u):
     ar = u.src("proxy_agent/src/proxy/authorization_rules.rs")
     psum = u.src("proxy_agent/src/proxy/proxy_summary.rs")
     ags = u.src("proxy_agent_shared/src/proxy_agent_aggregate_status.rs")
+    rdw = u.src(RDW)
+    lx = u.src("proxy_agent/src/redirector/linux.rs")
     u.raw("use vstd::std_specs::hash::*;")
     for f in ("str_axioms.rs", "ext_types.rs", "std_string.rs", "hash_str.rs"):
         u.raw(open(os.path.join(COMMON, f)).read())
     u.raw_file("deps.rs")
     u.raw_file("spec.rs")
+    u.raw("use crate::key_keeper::key::AuthorizationItem;\nuse crate::proxy::authorization_rules::ComputedAuthorizationItem;" + COMPUTED_SPEC)
 
     with u.mod("common"):
         with u.mod("error"):
@@ -191,6 +226,8 @@ def build(u):
             u.take(ags, "ModuleState", "enum")
     with u.mod("key_keeper"):
         with u.mod("key", uses="use std::collections::HashMap;"):
+            # E13: the rule document is only handed to from_authorization_item by set_*_rules (never looked into here)
+            u.placeholder_ext(key, ["AuthorizationItem"], "vx_ph_key_item", keep=())
             u.take(key, "Key", "struct")
             with u.impl_(key, "<Key as Clone>"):
                 # Key's hand-written Clone: proved to be a faithful copy (GetKey replies a clone)
@@ -198,18 +235,27 @@ def build(u):
         ensures r == *self,  // @C10.Key_clone.faithful_copy
 """)
     with u.mod("proxy"):
-        with u.mod("authorization_rules"):
+        with u.mod("authorization_rules", uses="use crate::key_keeper::key::AuthorizationItem;"):
             # E13: the rule tables are only stored and handed back by the actor arms (never looked into)
             u.placeholder_ext(ar, ["ComputedAuthorizationItem"], "vx_ph_authz")
+            with u.impl_(ar, "ComputedAuthorizationItem"):
+                # stub (real signature): the result is NAMED computed(item); what it computes is decided in unit authz
+                u.take_fn(ar, "ComputedAuthorizationItem::from_authorization_item", external_body=True, contract="""
+        ensures r == computed(authorization_item),
+""")
             u.raw("""
 // derived Clone of ComputedAuthorizationItem (HashMap / HashSet / String fields, all Clone by value): a copy. Trusted.
 pub assume_specification [<ComputedAuthorizationItem as Clone>::clone] (c: &ComputedAuthorizationItem) -> (r: ComputedAuthorizationItem)
     ensures r == *c;
 """)
         build_summary(u, psum)
+    with u.mod("redirector"):
+        # E13: the BPF object is only stored and handed back by the redirector actor (never looked into)
+        u.placeholder_ext(lx, ["BpfObject"], "vx_ph_bpf", keep=())
     with u.mod("shared_state"):
         build_status_actor(u, asw)
         build_key_keeper_actor(u, kkw)
+        build_redirector_actor(u, rdw)
 
 
 def build_summary(u, psum):
@@ -347,6 +393,7 @@ use vstd::std_specs::hash::*;"""
 def build_key_keeper_actor(u, kkw):
     uses = """use crate::common::error::Error;
 use crate::common::result::Result;
+use crate::key_keeper::key::AuthorizationItem;
 use crate::proxy::authorization_rules::ComputedAuthorizationItem;
 use crate::{common::logger, key_keeper::key::Key};
 use std::sync::Arc;
@@ -406,15 +453,36 @@ def build_key_keeper_wrappers(u, kkw):
                     raise Undecided("%s: parameter list changed" % meth)
                 ok = "r is Ok ==> %s && (final(t).sent.last() matches KeyKeeperAction::%s { %s: a, response: _ } && a == %s)" % (GREW, variant, field, field)
                 what = "sends_exactly_its_argument_once"
+                # (added with set_*_rules) Ok is returned only after the actor answered THIS message: what unit keykeeper's `did` relies on
+                ans = "\n            r is Ok ==> (final(t).sent.last() matches KeyKeeperAction::%s { %s: _, response: resp } && answered(resp)),  // @%s.wrapper.%s.ok_only_after_the_actor_answered" % (variant, field, prop, meth)
             else:
+                ans = ""
                 ok = "r matches Ok(v) ==> %s && (final(t).sent.last() matches KeyKeeperAction::%s { response } && v == sent_value(response))" % (GREW, variant)
                 what = "returns_the_actors_reply_to_its_one_message"
             u.take_fn(kkw, P + meth, ghost=KK_T, pre_body="broadcast use group_fmt_chan_errors;", e9=chan_e9(kkw, P + meth, MSG, "kk"), contract="""
         ensures
             r is Err ==> final(t).gone,  // @%(p)s.wrapper.%(m)s.fails_only_if_actor_gone
-            %(ok)s,  // @%(p)s.wrapper.%(m)s.%(w)s
+            %(ok)s,  // @%(p)s.wrapper.%(m)s.%(w)s%(ans)s
             final(t).sent == old(t).sent || (%(g)s),  // @%(p)s.wrapper.%(m)s.at_most_one_message
-""" % dict(p=prop, m=meth, ok=ok, w=what, g=GREW))
+""" % dict(p=prop, m=meth, ok=ok, w=what, g=GREW, ans=ans))
+        # ---- C09: set_<e>_rules: ONE message, of its OWN variant, carrying rules.map(from_authorization_item); Ok only after the
+        #      actor answered that very message. (Unit keykeeper ASSUMES: Ok ==> the actor's <e> rules slot == computed_opt(rules);
+        #      with the arm contract `Set<E>Rules stores its argument in <e>_rules` this is what is proved here.)
+        for (stem, v) in ENDPOINTS:
+            meth = "set_%s_rules" % stem
+            it = kkw.item(P + meth, "fn")
+            if [p["name"] for p in it["params"] if p["name"] not in ("self", None)] != ["rules"]:
+                raise Undecided("%s: parameter list changed" % meth)
+            last = "final(t).sent.last() matches KeyKeeperAction::Set%sRules { rules: a, response: resp }" % v
+            u.take_fn(kkw, P + meth, ghost=KK_T, pre_body="broadcast use group_fmt_chan_errors;", e9=chan_e9(kkw, P + meth, MSG, "kk"), contract="""
+        ensures
+            r is Err ==> final(t).gone,  // @C09.%(m)s.fails_only_if_actor_gone
+            r is Ok ==> %(g)s,  // @C09.%(m)s.exactly_one_message
+            r is Ok ==> final(t).sent.last() is Set%(v)sRules,  // @C09.%(m)s.message_is_of_its_own_variant
+            r is Ok ==> (%(last)s && a == computed_opt(rules)),  // @C09.%(m)s.carries_the_computed_form_of_its_argument
+            r is Ok ==> (%(last)s && answered(resp)),  // @C09.%(m)s.ok_only_after_the_actor_answered
+            final(t).sent == old(t).sent || (%(g)s),  // @C09.%(m)s.at_most_one_message
+""" % dict(m=meth, v=v, g=GREW, last=last))
         # ---- C10: the public key accessors: ONE SetKey / ONE GetKey each, one field projected
         u.take_fn(kkw, P + "update_key", ghost=KK_T, ghost_calls=[("set_key", "all", "Tracked(t)")], contract="""
         ensures
@@ -436,3 +504,93 @@ def build_key_keeper_wrappers(u, kkw):
                 && v == (match sent_value(response) { Some(k) => %(proj)s, None => None })),  // @C10.wrapper.%(m)s.one_GetKey_and_one_field_of_that_reply
             final(t).sent == old(t).sent || (%(g)s),  // @C10.wrapper.%(m)s.at_most_one_message
 """ % dict(g=GREW, proj=proj, m=meth))
+
+
+# ---- the redirector actor (shared_state/redirector_wrapper.rs): locals `local_port`, `bpf_object` ----
+BPF_T = "Option<Arc<Mutex<redirector::BpfObject>>>"
+RD_ARMS = {
+    # variant -> (pattern (whitespace removed), fn name, params, ret type, pre (E5 glue), tail, contract)
+    "SetLocalPort": ("RedirectorAction::SetLocalPort{local_port:new_local_port,response,}", "vx_arm_set_local_port",
+                     "local_port_0: u16, new_local_port: u16, response: oneshot::Sender<()>", "u16", "let mut local_port = local_port_0;", "local_port", """
+        ensures r == new_local_port,  // @C09+C06.redirector_actor.SetLocalPort.stores_its_argument
+                answered(response),  // @C09+C06.redirector_actor.SetLocalPort.answers_the_sender
+"""),
+    "GetLocalPort": ("RedirectorAction::GetLocalPort{response}", "vx_arm_get_local_port", "local_port: u16, response: oneshot::Sender<u16>", "", "", "", """
+        ensures sent_value(response) == local_port,  // @C09+C06.redirector_actor.GetLocalPort.replies_stored_value
+                answered(response),  // @C09+C06.redirector_actor.GetLocalPort.answers_the_sender
+"""),
+    "SetBpfObject": ("RedirectorAction::SetBpfObject{bpf_object:new_bpf_object,response,}", "vx_arm_set_bpf_object",
+                     "bpf_object_0: %s, new_bpf_object: %s, response: oneshot::Sender<()>" % (BPF_T, BPF_T), BPF_T, "let mut bpf_object = bpf_object_0;", "bpf_object", """
+        ensures r == new_bpf_object,  // @C09+C06.redirector_actor.SetBpfObject.stores_its_argument
+                answered(response),  // @C09+C06.redirector_actor.SetBpfObject.answers_the_sender
+"""),
+    "GetBpfObject": ("RedirectorAction::GetBpfObject{response}", "vx_arm_get_bpf_object", "bpf_object: %s, response: oneshot::Sender<%s>" % (BPF_T, BPF_T), "", "", "", """
+        ensures sent_value(response) == bpf_object,  // @C09+C06.redirector_actor.GetBpfObject.replies_stored_value
+                answered(response),  // @C09+C06.redirector_actor.GetBpfObject.answers_the_sender
+"""),
+}
+RD_T = "Tracked(t): Tracked<&mut ChanTrace<RedirectorAction>>"
+# one-message wrappers: method -> (variant, field carrying the argument | None for getters)
+RD_WRAPPERS = [("set_local_port", "SetLocalPort", "local_port"), ("get_local_port", "GetLocalPort", None),
+               ("set_bpf_object", "SetBpfObject", "bpf_object"), ("get_bpf_object", "GetBpfObject", None)]
+
+
+def build_redirector_actor(u, rdw):
+    uses = """use crate::common::error::Error;
+use crate::common::logger;
+use crate::common::result::Result;
+use crate::redirector;
+use std::sync::{Arc, Mutex};
+use tokio::sync::{mpsc, oneshot};"""
+    P = "RedirectorSharedState::"
+    MSG = "crate::shared_state::redirector_wrapper::RedirectorAction"
+    with u.mod("redirector_wrapper", uses=uses):
+        u.take_ext(rdw, ["RedirectorAction"], "vx_ext_rd_action", uses="use crate::redirector;\nuse std::sync::{Arc, Mutex};\nuse tokio::sync::{mpsc, oneshot};", opaque=False, transparent=True)
+        u.take_ext(rdw, ["RedirectorSharedState"], "vx_ext_rd_state", uses="use crate::vx_ext_rd_action::RedirectorAction;\nuse tokio::sync::mpsc;", opaque=False, transparent=True)
+        with u.impl_(rdw, "RedirectorSharedState"):
+            for (meth, variant, field) in RD_WRAPPERS:
+                it = rdw.item(P + meth, "fn")
+                if field is not None:
+                    if [p["name"] for p in it["params"] if p["name"] not in ("self", None)] != [field]:
+                        raise Undecided("%s: parameter list changed" % meth)
+                    ok = "r is Ok ==> %s && (final(t).sent.last() matches RedirectorAction::%s { %s: a, response: resp } && a == %s && answered(resp))" % (GREW, variant, field, field)
+                    what = "sends_exactly_its_argument_once_and_waits_for_the_answer"
+                else:
+                    ok = "r matches Ok(v) ==> %s && (final(t).sent.last() matches RedirectorAction::%s { response } && v == sent_value(response) && answered(response))" % (GREW, variant)
+                    what = "returns_the_actors_reply_to_its_one_message"
+                u.take_fn(rdw, P + meth, ghost=RD_T, pre_body="broadcast use group_fmt_chan_errors;", e9=chan_e9(rdw, P + meth, MSG, "rd"), contract="""
+        ensures
+            r is Err ==> final(t).gone,  // @C09+C06.redirector_wrapper.%(m)s.fails_only_if_actor_gone
+            %(ok)s,  // @C09+C06.redirector_wrapper.%(m)s.%(w)s
+            final(t).sent == old(t).sent || (%(g)s),  // @C09+C06.redirector_wrapper.%(m)s.at_most_one_message
+""" % dict(m=meth, ok=ok, w=what, g=GREW))
+            for (meth, val) in (("update_bpf_object", "a == Some(bpf_object)"), ("clear_bpf_object", "a is None")):
+                u.take_fn(rdw, P + meth, ghost=RD_T, ghost_calls=[("set_bpf_object", "all", "Tracked(t)")], contract="""
+        ensures
+            r is Err ==> final(t).gone,
+            r is Ok ==> %(g)s && (final(t).sent.last() matches RedirectorAction::SetBpfObject { bpf_object: a, response: _ } && %(val)s),  // @C09+C06.redirector_wrapper.%(m)s.one_SetBpfObject_with_that_value
+            final(t).sent == old(t).sent || (%(g)s),
+""" % dict(g=GREW, val=val, m=meth))
+        FN = "RedirectorSharedState::start_new"
+        it = rdw.item(FN, "fn")
+        ms = [m for m in it["matches"] if rdw.s(m["scrutinee"][0], m["scrutinee"][1]).strip() == "action"]
+        if len(ms) != 1:
+            raise Undecided("%s: the dispatch `match action` was found %d times" % (FN, len(ms)))
+        seen = set()
+        for arm in ms[0]["arms"]:
+            pat = re.sub(r"\s+", "", rdw.s(arm["pat"][0], arm["pat"][1]))
+            m = re.match(r"RedirectorAction::(\w+)\b", pat)
+            if not m or m.group(1) in seen or m.group(1) not in RD_ARMS:
+                raise Undecided("%s: unknown or repeated actor arm `%s`" % (FN, pat[:60]))
+            v = m.group(1)
+            seen.add(v)
+            want, name, params, rty, pre, tail, contract = RD_ARMS[v]
+            if pat != want and pat != want.replace(",}", "}"):
+                raise Undecided("%s: arm %s binds other names than %s" % (FN, v, want))
+            lo, hi = arm_block(rdw, arm, FN + " " + v)
+            # rustc checks the frame: the slice only compiles if the arm uses no actor local other than the one passed in
+            u.slice_fn(rdw, FN, name, lo, hi, params, ret_type=rty, contract=contract,
+                       pre_body="broadcast use axiom_to_string_string, axiom_string_ext;\n" + pre + "\n", tail=(tail + "\n") if tail else "",
+                       what="(actor arm RedirectorAction::%s)" % v)
+        if seen != set(RD_ARMS):
+            raise Undecided("%s: actor arms %s missing" % (FN, sorted(set(RD_ARMS) - seen)))
